@@ -22,3 +22,35 @@ def run(ctx):
              "class (the base's other blocks stay in force); 1-2 lists of 2-3 objects whose blocks are toggled per element "
              "(obj.l[i].blk.constraint_mode)",
         olists=True, hooks=True)
+    scalar_list_stream(ctx)
+
+
+def scalar_list_stream(ctx):
+    """a block holding foreach / sum / product statements over scalar lists is switched off, the lists grow while it is off, it
+    is switched on again: every call enforces exactly the enabled blocks over the list as it is at that call"""
+    import random
+    import core
+    import listgen
+    from props import c04, solve_common
+    rnd = random.Random("C07-lists-%d" % ctx.seed)
+    n = 60 if ctx.quick() else 1500
+    scs = [listgen.ListGen(random.Random(rnd.random()), cmodes=True).scenario() for _ in range(n)]
+    obs, results, crashed = c04.evaluate(ctx, scs, "c07s")
+    ev = 0
+    for si, o in crashed:
+        core.add_violation(ctx, "library raised outside a randomize call on a list scenario with constraint_mode: %s" % str(o)[:300],
+                           {"scenario": scs[si], "observed": str(o)[:2000]})
+    for si, oi, code, res, rsz in results:
+        ev += 1
+        if code is None:
+            ctx.tie_broken.append("Coq evaluation failed for list scenario %d call %d" % (si, oi))
+        elif code & (2 | 8):
+            core.add_violation(ctx, "list scenario with constraint_mode history: the values violate an enabled block (expanded over the "
+                                    "list as it is at this call), or the outcome shows a disabled block was enforced (bits %d; outcome %s)"
+                               % (code & (2 | 8), res["outcome"]),
+                               {"scenario": solve_common.brief(scs[si], oi), "observed": {k: res.get(k) for k in ("outcome", "err", "before", "values", "lists")}, "code": code})
+        elif code & 1:
+            ctx.tie_broken.append("model's lowering != recorded solver terms in list scenario with constraint_mode %r" % (solve_common.brief(scs[si], oi),))
+    ctx.coverage["evaluations"] += ev
+    ctx.coverage["scalar_list_stream"] = {"scenarios": n, "evaluations": ev,
+                                          "toggles": sum(1 for s in scs for o in s["ops"] if o["op"] == "cmode")}
